@@ -904,6 +904,11 @@ func (p *Parser) parseJoin(stmt *SelectStatement) error {
 			if err != nil {
 				return err
 			}
+			// "ON m.k = s.k": the side carrying the table alias is the table field,
+			// whichever side of '=' it was written on.
+			if jc.Alias != "" && strings.HasPrefix(left, jc.Alias+".") && !strings.HasPrefix(right, jc.Alias+".") {
+				left, right = right, left
+			}
 			jc.OnPairs = append(jc.OnPairs, types.JoinOnPair{
 				StreamField: stripAliasPrefix(left, stmt.SourceAlias, jc.Alias),
 				TableField:  stripAliasPrefix(right, stmt.SourceAlias, jc.Alias),
